@@ -65,7 +65,7 @@ ASSUMPTIONS = [
 #   policy the *domain* of the accuracy clause is narrowed, not the tolerance widened:
 #       a >= 1.3        : 5 %   (observed max 3.9 %: margin 1.28)
 #       0.85 <= a < 1.3 : 10 %  (observed / scanned max 8.8 %)
-#       a < 0.85        : accuracy not asserted (about 11 % of cases; label
+#       a < 0.85        : accuracy not asserted (about 15 % of cases; label
 #                         accuracy_not_asserted(shape<0.85)); all other clauses still apply.
 #   * unphased_moments computes the parent mean as b/t - z E[t_j]; when kappa = (b/t)/E[t_i] is
 #     large the Laplace error of E[t_j] is amplified by ~(kappa-1): rel err up to 12 (1200 %)
@@ -91,7 +91,7 @@ _TEST_VECTOR = dict(a_i=2.0, b_i=0.0005, a_j=1.5, b_j=0.005, mu=0.001)
 def budget(tier):
     if tier == "quick":
         return dict(examples=1000, shards=4, min_nontrivial=1500)
-    return dict(examples=20000, shards=16, min_nontrivial=100000)
+    return dict(examples=20000, shards=16, min_nontrivial=40000)
 
 
 _CORNERS = [0.0, 0.0909, 0.125, 0.5, 1.0]  # shape 0.5 / ~1.0 / ~1.3 / 22 / 1000, ends of every range
@@ -102,18 +102,24 @@ def strategy_(draw, tier):
     fam = draw(st.sampled_from(FAMILIES[:6] * 3 + FAMILIES[6:]))
     # The box is sampled log-uniformly from a drawn seed: Hypothesis' own float / integer
     # strategies pile mass on 0, 1 and tiny values (35-50 % of cases had a shape of exactly 0.5 in
-    # first runs, which also distorts the run-level median clause).  One case in eight is a corner
-    # of the box chosen by Hypothesis instead.  The derived vector is stored in the case itself.
-    if draw(st.integers(0, 7)) == 0:
+    # first runs, which also distorts the run-level median clause).  Seeds whose stream says so (1 in 8)
+    # give a corner of the box chosen by Hypothesis instead; measured share of corner cases is ~50 %
+    # because Hypothesis concentrates on few seeds and never repeats a choice sequence.  The derived
+    # vector is stored in the case itself; only box=uniform cases feed the run-level medians.
+    seed = draw(st.integers(0, 2**32 - 1))
+    rng = np.random.default_rng([seed, 18])
+    if rng.random() < 0.125:  # (decided by the seed's stream: Hypothesis favours "round" seeds)
         u = [draw(st.sampled_from(_CORNERS)) for _ in range(6)]
+        y = draw(st.sampled_from([0, 1, 2, 5, 50, 300]))
+        damp = draw(st.sampled_from([1.0, 0.1]))
+        flat = draw(st.sampled_from([False, False, False, True]))
         kind = "corner"
     else:
-        seed = draw(st.integers(0, 2**32 - 1))
-        u = [float(x) for x in np.random.default_rng([seed, 18]).uniform(0.0, 1.0, 6)]
+        u = [float(x) for x in rng.uniform(0.0, 1.0, 6)]
+        y = int(rng.integers(0, 6)) if rng.random() < 0.5 else int(rng.integers(0, 301))
+        damp = float(rng.choice([1.0, 1.0, 1.0, 1.0, 0.1, 0.37, 0.9]))
+        flat = bool(rng.random() < 0.1)
         kind = "uniform"
-    y = draw(st.one_of(st.integers(0, 5), st.integers(0, 300)))
-    damp = draw(st.sampled_from([1.0, 1.0, 1.0, 1.0, 0.1, 0.37, 0.9]))
-    flat = draw(st.sampled_from([False] * 9 + [True]))
     return dict(fam=fam, u=u, y=y, damp=damp, flat=flat, kind=kind)
 
 
@@ -487,6 +493,8 @@ def _far_from_test_vectors(p):
 
 
 def check(case, ctx):
+    if case is None:  # replay of a run-level (median) clause: nothing to re-run on a single case
+        return []
     fam = case["fam"]
     p = params(case)
     R = _Run(ctx, p)
